@@ -86,6 +86,7 @@ fn main() {
             "C13" => print_replay(&id, props::c13::replay(&name, &path)),
             "C14" => print_replay(&id, props::c14::replay(&name, &path)),
             "C15" => print_replay(&id, props::c15::replay(&name, &path)),
+            "C16" => print_replay(&id, props::c16::replay(&name, &path)),
             _ => {
                 eprintln!("unknown property {id}");
                 2
@@ -106,6 +107,7 @@ fn main() {
             "C13" => props::c13::check(&tier),
             "C14" => props::c14::check(&tier),
             "C15" => props::c15::check(&tier),
+            "C16" => props::c16::check(&tier),
             _ => {
                 eprintln!("unknown property {id}");
                 2
